@@ -24,7 +24,8 @@ BAUD = [1000000, 800000, 500000, 250000, 125000, 0, 50000, 20000, 10000, 0]
 
 class LModel:
     def __init__(self, ident, nid, baud=250000):
-        self.ident = ident
+        self.ident = list(ident)             # the identity object as it reads NOW (the application may re-write an entry, e.g. the serial number)
+        self.ident0 = tuple(ident)
         self.nid, self.baud = nid, baud
         self.spec = (nid, baud)              # what the node specification says: active after a power cycle unless a configuration is stored
         self.mode = WAIT
@@ -36,7 +37,7 @@ class LModel:
         self.lssdead = False
 
     def key(self):
-        return (self.mode, self.selp, self.selt, self.idp, self.idt, self.pnode, self.pbaud, self.store, self.nmt, self.nid)
+        return (self.mode, self.selp, self.selt, self.idp, self.idt, self.pnode, self.pbaud, self.store, self.nmt, self.nid, tuple(self.ident))
 
     def request(self, d):
         """d: 8 data bytes. -> ('none',) | ('resp', bytes prefix) | ('open',) ; plus side effects; store call expected -> self.want_store"""
@@ -163,11 +164,24 @@ def abstract_requests(ident):
     reqs += [f(23), f(90), f(91), f(92), f(93), f(94), f(76)]
     reqs += [f(0), f(5), f(16), f(22), f(68), f(79), f(95), f(255)]
     reqs += [("nmt", 1), ("nmt", 2), ("nmt", 128), ("nmt", 130), ("nmt", "power")]      # "power": power cycle (CONodeInit on a fresh RAM, NVM kept)
+    # the application re-writes an entry of the identity object (serial number programmed at the end of the line, ...): the address the
+    # LSS slave answers to is the identity object as it reads now.  The value toggles between v and v + 1, which the requests above name.
+    reqs += [("app", 0), ("app", 3)]
     return reqs
 
 
 def step(res, sim, m, rq, fail):
     """One request on the real node, compared with the model. Returns (ok, answered)."""
+    if isinstance(rq, tuple) and rq[0] == "app":
+        k = rq[1]
+        if m.ident0[k] >= 0xFFFFFFFF:
+            return True, False
+        v = m.ident0[k] + 1 if m.ident[k] == m.ident0[k] else m.ident0[k]
+        r = sim.ret("wr 1018 %d 4 %x" % (k + 1, v))
+        if r and r[0] == "0":
+            m.ident[k] = v
+            res.counters["identity_rewritten_by_application"] += 1
+        return True, False
     if isinstance(rq, tuple):
         cs = rq[1]
         old_nid = m.nid
@@ -175,6 +189,7 @@ def step(res, sim, m, rq, fail):
             # a stored configuration is the active one after a power cycle as well, for every service of the node
             evs = sim.cmd("restart") + sim.cmd("start")
             m.nid, m.baud = m.spec           # an activated but not stored bit rate does not survive the power cycle
+            m.ident = list(m.ident0)         # (RAM as configured)
             m.lssdead = False
             cs = 130
         else:
